@@ -1,190 +1,224 @@
 """C13 - cookie values round-trip and cannot inject attributes.
 
-All tables are folded from the source (E3/E4) and compared, exhaustively over
-the 256 byte values, with the RFC 6265 section 4.1.1 cookie-octet table.  The
-code that applies the tables is located by role (the regex substitution over
-the encoded value, the fast-path match on the value, the unescaping substitution
-over the quoted value), following one level of module-level helpers, and its
-conditions are read through canonical guards - so extracted helpers, renamed
-locals, flipped branches and equivalent stdlib idioms are read the same way.
+The rules are statements about *values*, and they are decided on values: the
+functions involved (dump_cookie and its private helpers, the sans-io parser and
+its substitution callback, the environ-level parser, Request.cookies,
+Response.set_cookie, the test client's Cookie._from_response_header) are
+evaluated by a small abstract interpreter (``_c13_helpers``: constant
+propagation with symbolic terms, both edges of every undecided branch, private
+helpers / lambdas followed, regex applications kept symbolic).  The result of a
+run is a term such as ``f"{$key..}={$value}; Path={quote($path, safe=..)}"``;
+the rules compare that term with what the property demands.  Which local is
+called ``buf``, whether the loop uses ``continue`` or ``elif``, whether the
+quoting lives in a helper, whether the parser uses findall or finditer does not
+enter.
+
+The byte tables (escape class, escape map, unslash regex, fast-path class) are
+the constants folded from the source (E3/E4) and are compared exhaustively over
+the 256 byte values with the RFC 6265 section 4.1.1 cookie-octet table; the two
+substitution callbacks are evaluated on every one of those bytes.
 """
 
 from __future__ import annotations
 
 import ast
 import re
+import typing as t
 
-from .. import astq
-from ..cfg import cfg_of
-from ..dataflow import ReachingDefs
-from ..fold import Folder, RegexConst, Unfoldable, single_class
-from ..guards import canon, guard_set, simulate
-from ..loader import AnalysisError, FuncInfo, dotted, norm, walk_no_nested
+from ..fold import Folder, RegexConst, group_count, single_class
+from ..loader import AnalysisError, FuncInfo
 from ..report import Ctx
+from . import _c13_helpers as H
+from ._c13_helpers import Outcome, Ref, Sym, cat_parts, explore, param, params_in, show
 
 LEVEL_TEXT = (
-    "Static decision of the structural clauses of C13 on /repo's current source: (R13.1) the escape class used by "
-    "dump_cookie contains every byte that is not an RFC 6265 cookie-octet; (R13.2) the escape map is total over that "
-    "class, pure ASCII, backslash + octal/self, and is inverted by the parser's unslash regex and replacement function, "
-    "which is applied in a single pass to quoted values only and whose result is stored untransformed; (R13.3) the "
-    "unquoted fast path admits only cookie-octets (fullmatch, re.ASCII); (R13.4) escaped text is decoded as "
-    "ASCII and wrapped in quotes; (R13.5) attribute names and order are literal, SameSite is validated, path and domain "
-    "pass their encoders, partitioned implies secure; (R13.6) both request-side parsers reach the sans-io parser and "
-    "Response.set_cookie forwards every attribute. Exhaustive over the 256 byte values; it decides these clauses, not "
-    "the round-trip law over all of Unicode (which follows from them plus UTF-8 being a bijection, not checked)."
+    "Static decision of the structural clauses of C13 on /repo's current source, by abstract interpretation (constant "
+    "propagation with symbolic terms over every path; werkzeug is never imported or run, regex applications stay symbolic) "
+    "of dump_cookie, the sans-io parser and the functions that connect them, plus exhaustive table algebra over the 256 "
+    "byte values: (R13.1) the escape class used by dump_cookie contains every byte that is not an RFC 6265 cookie-octet; "
+    "(R13.2) the escape callback is total over that class, its images are pure ASCII, backslash + octal/self, and each is "
+    "matched whole by the parser's unslash regex and mapped back to the byte by the parser's callback; the parser "
+    "unescapes exactly the text between the quotes of quoted values only (one representative per class of length 0/1/>=2 "
+    "x first/last character a quote), in one pass, decodes it as UTF-8 and stores the result untransformed; (R13.3) the "
+    "unquoted fast path is a fullmatch of a re.ASCII class contained in the cookie-octets and a matching value is emitted "
+    "unchanged; (R13.4) otherwise the UTF-8 bytes are substituted, decoded as ASCII and wrapped in quotes; (R13.5) the "
+    "returned header is the pair followed by exactly the attributes Domain, Expires, Max-Age, Secure, HttpOnly, Path, "
+    "SameSite, Partitioned in that order joined with '; ', None/False omitted, True as bare name, anything else as "
+    "name=value; SameSite is title-cased and anything but Strict/Lax/None raises ValueError, path and domain pass their "
+    "encoders, partitioned implies secure; (R13.6) both request-side parsers reach the sans-io parser, Response.set_cookie "
+    "forwards every attribute, the test client parses exactly the text before the first ';' as the pair and never reads "
+    "the pair as an attribute. It decides these clauses, not the round-trip law over all of Unicode (which follows from "
+    "them plus UTF-8 being a bijection, not checked)."
 )
-TRUSTED = ["CPython ast and re._parser", "RFC 6265 section 4.1.1 cookie-octet table embedded as a constant", "urllib.parse.quote escapes every non-safe non-alphanumeric character", "the idna codec outputs ASCII"]
+TRUSTED = ["CPython ast and re._parser", "the abstract interpreter of wzsa/rules/_c13_helpers.py models the Python subset used by the analysed functions faithfully (anything outside the subset is ANALYSIS-ERROR)", "RFC 6265 section 4.1.1 cookie-octet table embedded as a constant", "urllib.parse.quote escapes every non-safe non-alphanumeric character", "the idna codec outputs ASCII"]
 ASSUMPTIONS = ["cookie key is a token (as the property states)", "Expires passed as a raw str by the application is not constrained"]
 
 # RFC 6265 4.1.1: cookie-octet = %x21 / %x23-2B / %x2D-3A / %x3C-5B / %x5D-7E
 COOKIE_OCTETS = frozenset([0x21, *range(0x23, 0x2C), *range(0x2D, 0x3B), *range(0x3C, 0x5C), *range(0x5D, 0x7F)])
 ATTR_ORDER = ["Domain", "Expires", "Max-Age", "Secure", "HttpOnly", "Path", "SameSite", "Partitioned"]
+DUMP_PARAMS = ["key", "value", "max_age", "expires", "path", "domain", "secure", "httponly", "samesite", "partitioned"]
+HOLE = "\x00"
+# calls the rules read as atoms (never followed by the interpreter)
+ATOMS = ("werkzeug.http.http_date", "werkzeug.http.parse_date", "werkzeug.http.dump_cookie", "werkzeug.http.parse_cookie", "werkzeug.sansio.http.parse_cookie")
 
 
 # ---------------------------------------------------------------------
-# small dataflow helpers
+# reading header terms
 
 
-class Fn:
-    def __init__(self, fi: FuncInfo):
-        self.fi = fi
-        self.cfg = cfg_of(fi)
-        self.rd = ReachingDefs(self.cfg, fi.params)
-
-    def expand(self, e: ast.AST, at: ast.AST | None = None, depth: int = 0, levels: int = 5) -> ast.AST:
-        """substitute local names by their unique reaching definition (any expression), recursively."""
-        node = self.cfg.node_of(at if at is not None else e)
-        fresh = ast.parse(ast.unparse(e), mode="eval").body
-        if node is None or depth >= levels:
-            return fresh
-        outer = self
-
-        class T(ast.NodeTransformer):
-            def visit_Name(self, n: ast.Name):  # noqa: N802
-                if isinstance(n.ctx, ast.Load):
-                    defs = outer.rd.reaching(node, n.id)
-                    if len(defs) == 1:
-                        d = next(iter(defs))
-                        if d.kind == "assign" and d.index is None and d.value is not None and d.stmt is not None:
-                            return outer.expand(d.value, d.stmt, depth + 1, levels)
-                return n
-
-        return ast.fix_missing_locations(T().visit(fresh))
+class Header(t.NamedTuple):
+    skeleton: str  # literal text with \x00 for every symbolic piece
+    holes: list  # the symbolic pieces, in order
 
 
-def _module_helpers(fi: FuncInfo) -> list[FuncInfo]:
-    out = []
-    for c in astq.calls(fi.node):
-        d = dotted(c.func)
-        if d and d in fi.module.functions and fi.module.functions[d] is not fi and fi.module.functions[d] not in out:
-            out.append(fi.module.functions[d])
-    return out
+def header_of(v: t.Any) -> Header | None:
+    if not (isinstance(v, str) or (isinstance(v, Sym) and v.typ == "str")):
+        return None
+    sk, holes = "", []
+    for p in cat_parts(v):
+        if isinstance(p, str):
+            sk += p
+        else:
+            sk += HOLE
+            holes.append(p)
+    return Header(sk, holes)
 
 
-def _fold(ctx: Ctx, folder: Folder, fi: FuncInfo, expr: ast.AST):
-    d = dotted(expr)
-    if d is None:
-        raise AnalysisError(f"{fi.fq}: cannot resolve {ast.unparse(expr)}")
-    li = fi.module.local_imports(fi.node)
-    fq = ctx.repo.resolve(fi.module, d, li)
-    mn, _, nm = fq.rpartition(".")
-    return folder.name(ctx.repo.module(mn), nm), nm
+def unfmt(h: t.Any) -> t.Any:
+    """``format(x, '', '')`` / ``str(x)`` of a symbol -> the symbol"""
+    while isinstance(h, Sym) and h.op == "format" and h.args[1] in (-1, 115) and h.args[2] == "":
+        h = h.args[0]
+    return h
 
 
-def _find_sub(ctx: Ctx, folder: Folder, root: FuncInfo, want_bytes: bool = True):
-    """the `<regex>.sub(repl, X)` call in root or in a module-level helper it calls: (function, call, regex, name)"""
-    for fi in [root] + _module_helpers(root):
-        for c in astq.method_calls(fi.node, "sub"):
-            if len(c.args) >= 2:
-                try:
-                    rx, nm = _fold(ctx, folder, fi, c.func.value)  # type: ignore[attr-defined]
-                except (AnalysisError, Unfoldable):
-                    continue
-                if isinstance(rx, RegexConst) and isinstance(rx.pattern, bytes) == want_bytes:
-                    return fi, c, rx, nm
+def is_match_test(s: Sym) -> tuple[RegexConst, str, t.Any] | None:
+    """``RX.fullmatch(x)`` / ``re.fullmatch(RX, x)`` -> (regex, method, subject)"""
+    if s.op == "method" and isinstance(s.args[0], RegexConst) and s.args[1] in ("fullmatch", "match", "search") and s.args[2]:
+        return s.args[0], s.args[1], s.args[2][0]
+    if s.op == "call" and isinstance(s.args[0], Ref) and s.args[0].fq in ("re.fullmatch", "re.match", "re.search") and len(s.args[1]) >= 2 and isinstance(s.args[1][0], RegexConst):
+        return s.args[1][0], s.args[0].fq[3:], s.args[1][1]
     return None
 
 
-def _is_quote_wrapped(e: ast.AST) -> ast.AST | None:
-    """'"' + X + '"'  or  f'"{X}"'  -> X"""
-    if isinstance(e, ast.JoinedStr) and len(e.values) == 3 and astq.const_str(e.values[0]) == '"' and astq.const_str(e.values[2]) == '"' and isinstance(e.values[1], ast.FormattedValue):
-        return e.values[1].value
-    if isinstance(e, ast.BinOp) and isinstance(e.op, ast.Add) and astq.const_str(e.right) == '"' and isinstance(e.left, ast.BinOp) and isinstance(e.left.op, ast.Add) and astq.const_str(e.left.left) == '"':
-        return e.left.right
-    return None
+def _inside(node: ast.AST | None, fi: FuncInfo) -> ast.AST | None:
+    if node is None or not hasattr(node, "lineno"):
+        return None
+    lo, hi = fi.node.lineno, getattr(fi.node, "end_lineno", fi.node.lineno)  # type: ignore[attr-defined]
+    return node if lo <= node.lineno <= (hi or lo) else None
+
+
+class Writer:
+    """dump_cookie evaluated under scenarios"""
+
+    def __init__(self, ctx: Ctx, folder: Folder):
+        self.ctx = ctx
+        self.repo = ctx.repo
+        self.folder = folder
+        self.fi = ctx.repo.func("http.dump_cookie")
+        ctx.saw(self.fi)
+        missing = [p for p in DUMP_PARAMS if p not in self.fi.params]
+        if missing:
+            raise AnalysisError(f"dump_cookie has no parameter(s) {missing}")
+
+    def run(self, matched: bool | None = True, **over: t.Any) -> list[Outcome]:
+        base: dict[str, t.Any] = dict(key=param("key", "str"), value=param("value", "str"), max_age=None, expires=None, path=None, domain=None, secure=False, httponly=False, samesite=None, partitioned=False)
+        if "sync_expires" in self.fi.params:
+            base["sync_expires"] = False
+        if "max_size" in self.fi.params:
+            base["max_size"] = 0
+        base.update(over)
+
+        def oracle(s: Sym) -> bool | None:
+            if is_match_test(s) is not None and matched is not None:
+                return matched
+            if s.op == "param":
+                return True  # a symbolic parameter stands for a non-empty value
+            return None
+
+        return explore(self.repo, self.folder, self.fi, lambda: dict(base), oracle, None, self.ctx.saw, atoms=ATOMS)
+
+    def headers(self, outs: list[Outcome]) -> list[Header]:
+        """headers of the returning paths (a path may raise; at least one must return)"""
+        hs = []
+        for o in outs:
+            if o.kind != "return":
+                continue
+            h = header_of(o.value)
+            if h is None:
+                raise AnalysisError(f"dump_cookie returns `{show(o.value)[:80]}`, not a string term")
+            hs.append(h)
+        return hs
+
+
+def _attrs_of(h: Header) -> tuple[str, list[str]]:
+    """(pair text, attribute item texts) of a header skeleton, split at ';' + optional blanks"""
+    items = re.split(r";[ \t]*", h.skeleton)
+    return items[0], items[1:]
 
 
 def run(ctx: Ctx) -> None:
     repo = ctx.repo
     folder = Folder(repo)
-    dump = repo.func("http.dump_cookie")
-    ctx.saw(dump)
-    fn = dump.node
 
     ctx.rule("R13.1", "escape class ESC (regex substituted over the encoded value in dump_cookie) contains every byte that is not an RFC 6265 cookie-octet")
-    ctx.rule("R13.2", "escape map is total over ESC; each image is ASCII, backslash+self for quote/backslash else backslash+3 octal digits (first <= 3) of the byte; each image is matched whole by the parser's unslash regex and mapped back to the byte by its replacement function; the parser unescapes quoted values only, in one pass, and stores the result untransformed")
-    ctx.rule("R13.3", "the no-quote fast path is a fullmatch of a re.ASCII class contained in the cookie-octets")
-    ctx.rule("R13.4", "escaped bytes are decoded as ASCII and wrapped in double quotes; ESC covers 0x80-0xFF")
-    ctx.rule("R13.5", "attribute loop iterates the literal tuple Domain, Expires, Max-Age, Secure, HttpOnly, Path, SameSite, Partitioned; SameSite title-cased and validated; path quoted with ';' unsafe; domain IDNA->ASCII; timedelta max_age -> int; partitioned => secure")
-    ctx.rule("R13.6", "http.parse_cookie and Request.cookies reach sansio.http.parse_cookie; Response.set_cookie forwards every attribute to dump_cookie; test client splits the pair at the first ';'")
+    ctx.rule("R13.2", "the escape callback is total over ESC; each image is ASCII, backslash+self for quote/backslash else backslash+3 octal digits (first <= 3) of the byte; each image is matched whole by the parser's unslash regex and mapped back to the byte by its replacement function; the parser unescapes exactly the text between the quotes, of quoted values only, in one pass, decodes it as UTF-8 and stores the result untransformed; every pair with a non-empty key is stored, in order")
+    ctx.rule("R13.3", "the no-quote fast path is a fullmatch of a re.ASCII class contained in the cookie-octets; a matching value is emitted unchanged, any other value is escaped")
+    ctx.rule("R13.4", "the escape runs over the UTF-8 bytes of the value; escaped bytes are decoded as ASCII and wrapped in double quotes; ESC covers 0x80-0xFF")
+    ctx.rule("R13.5", "the returned header is the pair followed by Domain, Expires, Max-Age, Secure, HttpOnly, Path, SameSite, Partitioned in that order joined with '; '; None/False omitted, True bare, otherwise name=value; SameSite title-cased and validated; path quoted with ';' unsafe; domain IDNA->ASCII; timedelta max_age -> int; partitioned => secure")
+    ctx.rule("R13.6", "http.parse_cookie and Request.cookies reach sansio.http.parse_cookie; Response.set_cookie forwards every attribute to dump_cookie; the test client parses the text before the first ';' as the pair and reads attributes from the rest only")
 
-    # ---- slots on the writer side ------------------------------------
-    found = _find_sub(ctx, folder, dump, want_bytes=True)
-    if found is None:
-        raise AnalysisError("dump_cookie: no <bytes regex>.sub(...) in it or its helpers (escape slot)")
-    qf, sub_call, esc, esc_name = found
-    ctx.saw(qf)
-    Q = Fn(qf)
-    # the encoded argument: X.encode() where X is the value (possibly via a local)
-    enc_arg = Q.expand(sub_call.args[1], sub_call)
-    enc_ok = isinstance(enc_arg, ast.Call) and isinstance(enc_arg.func, ast.Attribute) and enc_arg.func.attr == "encode" and isinstance(enc_arg.func.value, ast.Name) and (not enc_arg.args or astq.const_str(enc_arg.args[0]) in ("utf-8", "utf8"))
-    vname = enc_arg.func.value.id if enc_ok else None  # type: ignore[union-attr]
-    if qf is dump:
-        value_is_value = vname == "value"
-    else:
-        hcalls = [c for c in astq.calls(dump.node) if dotted(c.func) == qf.name]
-        value_is_value = bool(hcalls) and all(len(c.args) >= 1 and astq.is_name(c.args[0], "value") for c in hcalls) and vname == (qf.params[0] if qf.params else None)
-    # replacement: lambda m: MAP[m.group()]  or a function returning that
-    repl = sub_call.args[0]
-    body = None
-    if isinstance(repl, ast.Lambda):
-        body = repl.body
-    elif dotted(repl) and dotted(repl) in qf.module.functions:
-        rf = qf.module.functions[dotted(repl)]
-        rets = astq.returns_of(rf.node)
-        if len(rets) == 1:
-            body = rets[0].value
-    map_expr = None
-    if isinstance(body, ast.Subscript) and isinstance(body.slice, ast.Call) and isinstance(body.slice.func, ast.Attribute) and body.slice.func.attr == "group" and not body.slice.args:
-        map_expr = body.value
-    if map_expr is None:
-        raise AnalysisError("dump_cookie: escape replacement is not `MAP[m.group()]` (map slot)")
-    emap, emap_name = _fold(ctx, folder, qf, map_expr)
-    if not isinstance(emap, dict):
-        raise AnalysisError(f"{emap_name} does not fold to a dict")
+    W = Writer(ctx, folder)
+    dump = W.fi
+
+    # ---- the value: fast path and escape ------------------------------
+    outs_m = W.run(matched=True)
+    outs_u = W.run(matched=False)
+    tests = []
+    for o in outs_m + outs_u:
+        for s, _ans, node in o.decisions:
+            mt = is_match_test(s)
+            if mt is not None:
+                tests.append((mt, node))
+    if not tests:
+        raise AnalysisError("dump_cookie: the value is not tested against a regex before it is emitted (fast-path slot)")
+    if len({(mt[0].pattern, mt[0].flags, mt[1], repr(mt[2])) for mt, _ in tests}) != 1:
+        raise AnalysisError("dump_cookie: more than one regex test decides how the value is emitted")
+    (nq, kind, subject), ft_node = tests[0]
+    qf = dump  # obligations about the quoting are reported at dump_cookie, wherever the statements live
+    nq_name = H.const_name(dump.module, folder, nq)
+
+    hm, hu = W.headers(outs_m), W.headers(outs_u)
+    if not hm or not hu:
+        raise AnalysisError("dump_cookie: no returning path for a plain key/value")
+    V = param("value", "str")
+
+    def pair_ok(h: Header) -> bool:
+        return h.skeleton == f"{HOLE}={HOLE}" and params_in(h.holes[0]) == {"key"} and h.holes[1] == V
+
+    raw_ok = all(pair_ok(h) for h in hm)
+
+    def quoted_term(h: Header) -> t.Any:
+        if h.skeleton == f'{HOLE}="{HOLE}"' and params_in(h.holes[0]) == {"key"}:
+            return h.holes[1]
+        return None
+
+    qterms = [quoted_term(h) for h in hu]
+    subs = []
+    for h in hu + hm:  # (a flipped test puts the escape on the matching edge: still the escape slot, and R13.3 reports it)
+        for s in H.walk_terms(h.holes):
+            rs = H.as_regex_sub(s)
+            if rs is not None and isinstance(rs[0].pattern, bytes):
+                subs.append((s, rs))
+    if not subs:
+        raise AnalysisError("dump_cookie: no <bytes regex>.sub(...) reaches the emitted value (escape slot)")
+    if len({(rs[0].pattern, rs[0].flags) for _, rs in subs}) != 1:
+        raise AnalysisError("dump_cookie: more than one escape regex")
+    sub_term, (esc, esc_repl, esc_subject, esc_extra) = subs[0]
+    esc_name = H.const_name(dump.module, folder, esc)
+    sub_node = _inside(sub_term.node, dump)
     ESC, rep = single_class(esc, 256)
     if rep != (1, 1):
         raise AnalysisError(f"{esc_name} is not a single-byte class (repeat {rep})")
-    # fast path test on the same value
-    fast = None
-    for t in Q.cfg.tests():
-        if t.kind != "test":
-            continue
-        e = t.ast
-        while isinstance(e, ast.UnaryOp):
-            e = e.operand
-        if isinstance(e, ast.Compare) and len(e.ops) == 1 and astq.is_none(e.comparators[0]):
-            e = e.left
-        if isinstance(e, ast.Call) and isinstance(e.func, ast.Attribute) and e.func.attr in ("fullmatch", "match", "search") and e.args and astq.is_name(e.args[0], vname):
-            try:
-                rx, nm = _fold(ctx, folder, qf, e.func.value)
-            except (AnalysisError, Unfoldable):
-                continue
-            if isinstance(rx, RegexConst):
-                fast = (t, e, rx, nm)
-    if fast is None:
-        raise AnalysisError("dump_cookie: no `<regex>.<match>(value)` test guarding the escape (fast-path slot)")
-    ft, fcall, nq, nq_name = fast
 
     # ---- R13.1 -----------------------------------------------------
     n131 = 0
@@ -192,434 +226,542 @@ def run(ctx: Ctx) -> None:
         if b in COOKIE_OCTETS:
             continue
         n131 += 1
-        ctx.ob("R13.1", f"byte 0x{b:02x} escaped", b in ESC, f"0x{b:02x} is not a cookie-octet and is {'in' if b in ESC else 'NOT in'} {esc_name} = {esc.pattern!r}", dump, sub_call if qf is dump else None, f"byte 0x{b:02x}")
+        ctx.ob("R13.1", f"byte 0x{b:02x} escaped", b in ESC, f"0x{b:02x} is not a cookie-octet and is {'in' if b in ESC else 'NOT in'} {esc_name} = {esc.pattern!r}", dump, sub_node, f"byte 0x{b:02x}")
     ctx.floor("R13.1", "non-cookie-octet bytes", n131, 256 - len(COOKIE_OCTETS))
 
-    # ---- R13.2 (writer map vs reader) -----------------------------------
-    sparse = repo.func("sansio.http.parse_cookie")
-    ctx.saw(sparse)
-    ufound = _find_sub(ctx, folder, sparse, want_bytes=True)
-    if ufound is None:
-        raise AnalysisError("sansio.http.parse_cookie: no <bytes regex>.sub(...) in it or its helpers (unslash slot)")
-    uf, unsl_call, unsl, unsl_name = ufound
-    ctx.saw(uf)
-    U = Fn(uf)
-    repl_fn_name = dotted(unsl_call.args[0])
-    repl_fi = uf.module.functions.get(repl_fn_name or "")
-    if repl_fi is None:
-        raise AnalysisError("unslash replacement function not found")
-    ctx.saw(repl_fi)
-    shape_ok, shape_fact = _unslash_shape(repl_fi)
-    ctx.ob("R13.2", "unslash replacement: one character is returned as is, three digits are read as an octal byte", shape_ok, shape_fact, repl_fi, repl_fi.node, "replacement shape")
+    # ---- the reader --------------------------------------------------
+    R = Reader(ctx, folder)
+    R.analyse()
+
+    # ---- R13.2 (writer images vs reader) ---------------------------------
+    unsl, unsl_repl = R.unsl, R.unsl_repl
+    unsl_name = H.const_name(R.fi.module, folder, unsl)
     unsl_c = re.compile(unsl.pattern, unsl.flags)
     n = 0
     for b in sorted(ESC):
         key = bytes([b])
         n += 1
-        if key not in emap:
-            ctx.ob("R13.2", f"map total at 0x{b:02x}", False, f"{esc_name} matches 0x{b:02x} but {emap_name} has no entry: KeyError inside re.sub", dump, None, f"map key 0x{b:02x}")
+        try:
+            if isinstance(esc_repl, (bytes, str)):
+                raise AnalysisError("dump_cookie: the escape replacement is a template, not a callback")
+            img = H.call_closure(repo, folder, esc_repl, [H.FakeMatch((), key)], ctx.saw)
+        except H.PyRaise as e:
+            ctx.ob("R13.2", f"map total at 0x{b:02x}", False, f"{esc_name} matches 0x{b:02x} but the replacement callback raises {e.name} inside re.sub", dump, None, f"map key 0x{b:02x}")
             continue
-        img = emap[key]
+        if H.has_opaque(img):
+            raise AnalysisError(f"dump_cookie: the escape callback cannot be evaluated for byte 0x{b:02x}: {show(img)[:80]}")
         good_form = isinstance(img, bytes) and all(c < 128 for c in img) and (
             (b in (0x22, 0x5C) and img == b"\\" + key) or (len(img) == 4 and img[:1] == b"\\" and img[1:].isdigit() and img[1] <= 0x33 and all(0x30 <= c <= 0x37 for c in img[1:]) and int(img[1:], 8) == b)
         )
         inv = False
+        back: t.Any = None
         if isinstance(img, bytes):
             m = unsl_c.fullmatch(img)
-            if m is not None and shape_ok:
-                g = m.group(1)
-                back = g if len(g) == 1 else bytes([int(g, 8)])
+            if m is not None:
+                try:
+                    if isinstance(unsl_repl, (bytes, str)):
+                        back = m.expand(unsl_repl)  # a replacement template: both operands are constants folded from the source
+                    else:
+                        back = H.call_closure(repo, folder, unsl_repl, [H.FakeMatch(m.groups(), m.group(0))], ctx.saw)
+                except H.PyRaise as e:
+                    back = f"raises {e.name}"
+                except (re.error, IndexError, TypeError) as e:
+                    back = f"raises {type(e).__name__}"
+                if H.has_opaque(back):
+                    raise AnalysisError(f"sansio.http.parse_cookie: the unslash callback cannot be evaluated for {img!r}: {show(back)[:80]}")
                 inv = back == key
-        ctx.ob("R13.2", f"escape of 0x{b:02x}", good_form and inv, f"{emap_name}[0x{b:02x}] = {img!r}: form {'ok' if good_form else 'BAD'}, {'inverted' if inv else 'NOT inverted'} by {unsl_name} = {unsl.pattern!r}", dump, None, f"map image 0x{b:02x}")
+        ctx.ob("R13.2", f"escape of 0x{b:02x}", good_form and inv, f"0x{b:02x} -> {img!r}: form {'ok' if good_form else 'BAD'}, {'inverted' if inv else f'NOT inverted (parser gives {back!r})'} by {unsl_name} = {unsl.pattern!r} and its callback", dump, None, f"map image 0x{b:02x}")
     ctx.floor("R13.2", "escaped bytes with map images", n, 150)
     raw = set(range(256)) - ESC
     ctx.ob("R13.2", "backslash never raw", 0x5C not in raw, "backslash is in the escape class, so no raw byte can start an escape sequence in the parser", dump, None, "backslash raw")
-    # reader: argument is <quoted>[1:-1].encode(); result decoded leniently; single pass
-    uarg = U.expand(unsl_call.args[1], unsl_call)
-    uarg_ok = isinstance(uarg, ast.Call) and isinstance(uarg.func, ast.Attribute) and uarg.func.attr == "encode" and isinstance(uarg.func.value, ast.Subscript) and norm(uarg.func.value.slice) == "1:-1"
-    ctx.ob("R13.2", "the parser unescapes exactly the text between the surrounding quotes", uarg_ok, f"substitution argument `{norm(uarg)}`", uf, unsl_call, "unslash argument")
-    subs_in_reader = [c for f_ in [sparse] + _module_helpers(sparse) for c in astq.method_calls(f_.node, "sub")]
-    ctx.ob("R13.2", "the parser unescapes in a single pass", len(subs_in_reader) == 1, f"{len(subs_in_reader)} regex substitution(s) on the parse path", uf, unsl_call, "single unescape pass")
-    # the decoded result: find the expression containing the sub call up to .decode(...)
-    outer = _outer_chain(unsl_call)
-    dec = [c for a, c in astq.method_chain(outer) if a == "decode"]
-    if not dec:
-        # via a local: data = RE.sub(...); return data.decode(...)
-        for c in astq.method_calls(uf.node, "decode"):
-            ex = U.expand(c, c)
-            if any(isinstance(x, ast.Call) and isinstance(x.func, ast.Attribute) and x.func.attr == "sub" for x in ast.walk(ex)):
-                dec = [c]
-    ctx.ob("R13.2", "parser decodes unescaped bytes as UTF-8", bool(dec) and _decode_is_utf8(dec[-1]), "unslash result .decode() with default/utf-8 codec", uf, unsl_call, "parser decode")
-    _reader_rules(ctx, sparse, uf, unsl_call)
+    R.report()
 
     # ---- R13.3 -----------------------------------------------------
     NQ, _rep = single_class(nq, 256)
     NQ_full, _ = single_class(nq, 0x3000)
-    is_full = fcall.func.attr == "fullmatch"  # type: ignore[attr-defined]
-    ctx.ob("R13.3", "fast path uses fullmatch", is_full, f"{nq_name}.{fcall.func.attr}(value)", qf, fcall, "fast path match kind")  # type: ignore[attr-defined]
-    # the escape runs exactly when the value does NOT match; when it matches the value is passed on unchanged
-    k_fast, p_fast = canon(ft.ast)
-    g_sub = guard_set(Q.cfg, Q.cfg.node_of(sub_call))
-    # truth of "matches": the canonical key may be `<call>` (truthy = match) or `<call> is None` (true = no match)
-    matches_when = (not p_fast) if k_fast.endswith(" is None") else p_fast  # value of key meaning "matched" ... see below
-    key_true_means_match = not k_fast.endswith(" is None")
-    quoted_on_nonmatch = (k_fast, not key_true_means_match) in g_sub
-    ctx.ob("R13.3", "escaping happens exactly on the non-matching edge", quoted_on_nonmatch, f"guards of the substitution: {sorted(g_sub)}", qf, ft.ast, "fast path polarity")
-    # label of the test's edge taken when the value matches
-    match_label = "T" if (key_true_means_match == p_fast) else "F"
-    nonmatch_label = "F" if match_label == "T" else "T"
-    if qf is dump:
-        # on the matching edge neither the substitution nor any rebinding of the value is reachable before the pair is built
-        r_ = Q.cfg.reach(avoid_edges=[(ft, nonmatch_label)])
-        rebinds = [Q.cfg.node_of(s_) for s_, _ in astq.assigns_to(qf.node, vname or "value")]
-        unchanged = Q.cfg.node_of(sub_call).id not in r_ and not any(n_ is not None and n_.id in r_ for n_ in rebinds)
-        npaths = "reachability"
-    else:
-        outs = simulate(Q.cfg, lambda k: (key_true_means_match if k == k_fast else None))
-        unchanged = bool(outs) and all(o.kind == "return" and astq.is_name(o.value, vname) for o in outs)
-        npaths = f"{len(outs)} path(s)"
-    ctx.ob("R13.3", "a matching value is emitted unchanged", unchanged, f"matching edge: {npaths}", qf, ft.ast, "fast path passes value through")
-    ctx.ob("R13.3", "fast path class is ASCII-only", bool(nq.flags & re.A) and all(c < 128 for c in NQ_full), f"{nq_name} flags={nq.flags}", qf, fcall, "fast path ascii")
+    ft_at = _inside(ft_node, dump)
+    ctx.ob("R13.3", "fast path uses fullmatch", kind == "fullmatch" and subject == V, f"{nq_name}.{kind}({show(subject)})", qf, ft_at, "fast path match kind")
+    esc_ok = all(q is not None for q in qterms)
+    ctx.ob("R13.3", "escaping happens exactly on the non-matching edge", esc_ok, f"value not matched by {nq_name}: emitted as {[show(q)[:100] if q is not None else h.skeleton.replace(HOLE, '{}') for q, h in zip(qterms, hu)]}", qf, ft_at, "fast path polarity")
+    ctx.ob("R13.3", "a matching value is emitted unchanged", raw_ok, f"value matched by {nq_name}: header {[show_header(h) for h in hm]}", qf, ft_at, "fast path passes value through")
+    ctx.ob("R13.3", "fast path class is ASCII-only", bool(nq.flags & re.A) and all(c < 128 for c in NQ_full), f"{nq_name} flags={nq.flags}", qf, ft_at, "fast path ascii")
     extra = sorted(NQ - COOKIE_OCTETS)
-    ctx.ob("R13.3", "fast path class within cookie-octets", not extra, f"{nq_name} admits {len(NQ)} byte values; outside cookie-octets: {[hex(x) for x in extra]}", qf, fcall, "fast path subset")
+    ctx.ob("R13.3", "fast path class within cookie-octets", not extra, f"{nq_name} admits {len(NQ)} byte values; outside cookie-octets: {[hex(x) for x in extra]}", qf, ft_at, "fast path subset")
 
     # ---- R13.4 -----------------------------------------------------
     hi = [b for b in range(0x80, 0x100) if b not in ESC]
     ctx.ob("R13.4", "high bytes escaped", not hi, f"{len(hi)} bytes >= 0x80 outside {esc_name}", dump, None, "high bytes")
-    ctx.ob("R13.4", "substitution runs over UTF-8 bytes of the value", bool(enc_ok and value_is_value), f"`{norm(enc_arg)}`", qf, sub_call, "utf8 encode")
-    # the value that leaves the quoting code on the non-matching edge is '"' + <sub(...)>.decode('ascii') + '"'
-    wrapped_ok = False
-    fact = "no quoted result found"
-    cands: list[tuple[ast.AST, ast.AST]] = []
-    for st in walk_no_nested(qf.node):
-        if isinstance(st, ast.Return) and st.value is not None:
-            cands.append((st.value, st))
-        if isinstance(st, ast.Assign) and len(st.targets) == 1 and isinstance(st.targets[0], ast.Name):
-            cands.append((st.value, st))
-    for e, st in cands:
-        ex = Q.expand(e, st)
-        inner = _is_quote_wrapped(ex)
-        if inner is None:
-            continue
-        ch = astq.method_chain(inner)
-        names_ = [a for a, _ in ch]
-        if "sub" in names_ and "decode" in names_ and names_.index("sub") < names_.index("decode"):
-            d = dict(ch)["decode"]
-            wrapped_ok = bool(d.args) and astq.const_str(d.args[0]) in ("ascii", "us-ascii")
-            fact = f"`{norm(ex)[:120]}`"
-    ctx.ob("R13.4", "escaped value is decoded as ASCII and wrapped in double quotes", wrapped_ok, fact, qf, sub_call, "ascii decode and quote wrap")
-    # in dump_cookie the pair uses the (possibly quoted) value and nothing else rebinds it
-    binds = astq.assigns_to(fn, "value")
-    if qf is dump:
-        quoting_if = astq.enclosing(sub_call, (ast.If,))
-        outside = [s for s, _ in binds if quoting_if is None or not (quoting_if.lineno <= s.lineno <= (quoting_if.end_lineno or 0))]
-    else:
-        outside = [s for s, v in binds if not (isinstance(v, ast.Call) and dotted(v.func) == qf.name)]
-    ctx.ob("R13.4", "value rebound only by the quoting code", not outside and (qf is dump or len(binds) == 1), f"{len(binds)} bindings of value in dump_cookie, {len(outside)} outside the quoting code", dump, fn, "value rebinding")
+    root, ch = H.chain(esc_subject)
+    enc_ok = root == V and len(ch) == 1 and ch[0][0] == "encode" and len(ch[0][1]) <= 1 and not (set(ch[0][2]) - {"encoding"}) and (list(ch[0][1]) + [ch[0][2].get("encoding", "utf-8")])[0] in ("utf-8", "utf8") and not esc_extra
+    ctx.ob("R13.4", "substitution runs over UTF-8 bytes of the value", bool(enc_ok), f"`{show(esc_subject)}`", qf, sub_node, "utf8 encode")
+    wrapped_ok = bool(qterms)
+    for q in qterms:
+        q = unfmt(q)
+        ok = isinstance(q, Sym) and q.op == "method" and q.args[1] == "decode" and q.args[0] == sub_term
+        if ok:
+            a, kw = H.call_args(q)
+            codec = a[0] if a else kw.get("encoding", "utf-8")
+            # every byte >= 0x80 is escaped ("high bytes escaped" above), so any ASCII-compatible codec decodes the same text
+            ok = isinstance(codec, str) and codec.lower().replace("_", "-") in ("ascii", "us-ascii", "utf-8", "utf8", "latin-1", "latin1", "iso-8859-1") and not hi
+        wrapped_ok = wrapped_ok and bool(ok)
+    ctx.ob("R13.4", "escaped value is decoded as ASCII and wrapped in double quotes", wrapped_ok, f"{[show_header(h)[:160] for h in hu]}", qf, sub_node, "ascii decode and quote wrap")
 
     # ---- R13.5 -----------------------------------------------------
-    loop = None
-    for nnode in ast.walk(fn):
-        if isinstance(nnode, ast.For) and isinstance(nnode.iter, ast.Tuple) and all(isinstance(e, ast.Tuple) and len(e.elts) == 2 for e in nnode.iter.elts):
-            loop = nnode
-    if loop is None:
-        raise AnalysisError("dump_cookie: attribute loop over a literal tuple of pairs not found")
-    names = [astq.const_str(e.elts[0]) for e in loop.iter.elts]  # type: ignore[attr-defined]
-    ctx.ob("R13.5", "attribute names and order", names == ATTR_ORDER, f"literal tuple names {names}", dump, loop, "attribute tuple")
-    vals = [dotted(e.elts[1]) for e in loop.iter.elts]  # type: ignore[attr-defined]
-    expect_vals = ["domain", "expires", "max_age", "secure", "httponly", "path", "samesite", "partitioned"]
-    ctx.ob("R13.5", "attribute values wired to their parameters", vals == expect_vals, f"values {vals}", dump, loop, "attribute wiring")
-    first = None
-    for st, v in astq.assigns_to(fn, "buf"):
-        if isinstance(v, ast.List) and len(v.elts) == 1 and isinstance(v.elts[0], ast.JoinedStr):
-            first = v.elts[0]
-    pair_ok = False
-    if first is not None:
-        ps = first.values
-        pair_ok = len(ps) == 3 and astq.const_str(ps[1]) == "=" and isinstance(ps[2], ast.FormattedValue) and astq.is_name(ps[2].value, "value")
-    ctx.ob("R13.5", "pair emitted first as key=value", pair_ok, "buf = [f'{key...}={value}']", dump, fn, "pair first")
-    joins = [c for c in astq.method_calls(fn, "join") if astq.const_str(c.func.value) == "; " and c.args and astq.is_name(c.args[0], "buf")]  # type: ignore[attr-defined]
-    ctx.ob("R13.5", "attributes joined with '; '", len(joins) == 1, f"{len(joins)} `'; '.join(buf)`", dump, fn, "join")
-    ok_body, body_fact = _attr_loop_body_ok(dump, loop)
-    ctx.ob("R13.5", "loop body emits bare name / name=value", ok_body, body_fact, dump, loop, "attribute loop body")
+    pair_first = all(h.skeleton.startswith(f"{HOLE}={HOLE}") and params_in(h.holes[0]) == {"key"} and h.holes[1] == V for h in hm)
+    ctx.ob("R13.5", "pair emitted first as key=value", pair_first, f"plain call returns {[show_header(h) for h in hm]}", dump, dump.node, "pair first")
 
-    ss = [(s, v) for s, v in astq.assigns_to(fn, "samesite")]
-    titled = any(isinstance(v, ast.Call) and isinstance(v.func, ast.Attribute) and v.func.attr == "title" and astq.is_name(v.func.value, "samesite") for _, v in ss)
-    chk = None
-    dcfg = cfg_of(dump)
-    for t in dcfg.tests():
-        if t.kind != "test":
-            continue
-        k, p = canon(t.ast)
-        if k.startswith("samesite in "):
-            cmp_ = t.ast
-            while isinstance(cmp_, ast.UnaryOp):
-                cmp_ = cmp_.operand
-            try:
-                allowed = set(folder.expr(dump.module, cmp_.comparators[0]))
-            except Unfoldable:
-                allowed = None
-            bad_label = "F" if p else "T"  # edge on which the value is NOT in the set
-            succ = dcfg.succ(t, bad_label)
-            raises = bool(succ) and all(isinstance(s_.ast, ast.Raise) and astq.raised_name(s_.ast) == "ValueError" for s_ in succ)
-            chk = (t, allowed, raises)
-    ok = bool(titled and chk and chk[1] == {"Strict", "Lax", "None"} and chk[2] and chk[0].lineno < loop.lineno)
-    ctx.ob("R13.5", "SameSite normalised and validated before use", ok, f"title()={titled}, allowed={chk[1] if chk else None}, invalid raises ValueError={chk[2] if chk else None}", dump, chk[0].ast if chk else fn, "samesite check")
-    late = [s for s, v in ss if chk and s.lineno > chk[0].lineno]
-    ctx.ob("R13.5", "SameSite not rebound after validation", not late, f"{len(late)} later bindings", dump, fn, "samesite rebinding")
+    all_set = W.run(matched=True, domain=param("domain", "str"), expires=param("expires", "datetime"), max_age=param("max_age", "int"), secure=True, httponly=True, path=param("path", "str"), samesite="Lax", partitioned=True)
+    full = W.headers(all_set)
+    no_full = "" if full else f"dump_cookie does not return with every attribute set: {sorted({'raises ' + str(o.exc) for o in all_set})}; "
+    want_items = [f"Domain={HOLE}", f"Expires={HOLE}", f"Max-Age={HOLE}", "Secure", "HttpOnly", f"Path={HOLE}", "SameSite=Lax", "Partitioned"]
+    names_ok = join_ok = form_ok = wiring_ok = bool(full)
+    want_roots = [{"key"}, {"value"}, {"domain"}, {"expires"}, {"max_age"}, {"path"}]
+    for h in full:
+        _pair, items = _attrs_of(h)
+        names = [it.split("=", 1)[0] for it in items]
+        names_ok = names_ok and names == ATTR_ORDER
+        join_ok = join_ok and h.skeleton.split("; ")[1:] == items and not any(";" in it for it in h.skeleton.split("; "))
+        form_ok = form_ok and items == want_items
+        wiring_ok = wiring_ok and [params_in(x) for x in h.holes] == want_roots
+    shown = [show_header(h)[:400] for h in full]
+    for flag, tail in (("secure", "; Secure"), ("httponly", "; HttpOnly")):
+        hs = W.headers(W.run(matched=True, **{flag: True}))
+        got = sorted({h.skeleton for h in hs})
+        if got != [f"{HOLE}={HOLE}{tail}"]:
+            wiring_ok = False
+            shown.append(f"{flag}=True alone: {[g.replace(HOLE, '{}') for g in got]}")
+    ctx.ob("R13.5", "attribute names and order", names_ok, f"{no_full}every attribute set: {[[it.replace(HOLE, '{}') for it in _attrs_of(h)[1]] for h in full]}", dump, dump.node, "attribute tuple")
+    ctx.ob("R13.5", "attribute values wired to their parameters", wiring_ok, f"{shown}", dump, dump.node, "attribute wiring")
+    ctx.ob("R13.5", "attributes joined with '; '", join_ok, f"{[h.skeleton.replace(HOLE, '{}') for h in full]}", dump, dump.node, "join")
 
-    pq = None
-    for s, v in astq.assigns_to(fn, "path"):
-        if isinstance(v, ast.Call) and (dotted(v.func) or "").rsplit(".", 1)[-1] == "quote" and v.args and astq.is_name(v.args[0], "path"):
-            pq = v
-    if pq is None:
-        ctx.ob("R13.5", "path percent-quoted", False, "no `path = quote(path, safe=...)`", dump, fn, "path quote")
-    else:
-        safe_e = astq.arg_or_kw(pq, 1, "safe")
-        safe = folder.expr(dump.module, safe_e) if safe_e is not None else "/"
-        bad = sorted(set(safe) & set('; "\\\t\r\n'))
-        nonascii = [c for c in safe if not (0x21 <= ord(c) <= 0x7E)]
-        ctx.ob("R13.5", "path safe set excludes ';' and separators", not bad and not nonascii, f"safe={safe!r} bad={bad + nonascii}", dump, pq, "path quote")
-        only_quote = all(v is pq or s.lineno < pq.lineno for s, v in astq.assigns_to(fn, "path"))
-        ctx.ob("R13.5", "path not rebound after quoting", only_quote, "", dump, fn, "path rebinding")
-    dq = False
-    for s, v in astq.assigns_to(fn, "domain"):
-        ch = astq.method_chain(v) if v is not None else []
-        names_ = [a for a, _ in ch]
-        if "encode" in names_ and "decode" in names_:
-            e = dict(ch)["encode"]
-            d = dict(ch)["decode"]
-            dq = bool(e.args and astq.const_str(e.args[0]) == "idna" and d.args and astq.const_str(d.args[0]) == "ascii" and names_.index("encode") < names_.index("decode"))
-            dq = dq and astq.is_name(astq.chain_root(v), "domain")
-    ctx.ob("R13.5", "domain IDNA-encoded to ASCII", dq, "domain = domain...encode('idna').decode('ascii')", dump, fn, "domain idna")
-    ma = False
-    for nnode in ast.walk(fn):
-        if isinstance(nnode, ast.If) and isinstance(nnode.test, ast.Call) and dotted(nnode.test.func) == "isinstance" and astq.is_name(nnode.test.args[0], "max_age"):
-            for st in nnode.body:
-                if isinstance(st, ast.Assign) and astq.is_name(st.targets[0], "max_age") and isinstance(st.value, ast.Call) and dotted(st.value.func) == "int":
-                    ma = "total_seconds" in ast.unparse(st.value)
-    ctx.ob("R13.5", "timedelta max_age -> int seconds", ma, "max_age = int(max_age.total_seconds())", dump, fn, "max_age")
-    ps_ok = False
-    for nnode in ast.walk(fn):
-        if isinstance(nnode, ast.If) and astq.is_name(nnode.test, "partitioned"):
-            for st in nnode.body:
-                if isinstance(st, ast.Assign) and astq.is_name(st.targets[0], "secure") and isinstance(st.value, ast.Constant) and st.value.value is True:
-                    ps_ok = st.lineno < loop.lineno
-    ctx.ob("R13.5", "partitioned implies secure", ps_ok, "if partitioned: secure = True (before the attribute loop)", dump, fn, "partitioned secure")
-    ex_ok = any(isinstance(s, ast.Assign) and astq.is_name(s.targets[0], "expires") and isinstance(s.value, ast.Call) and dotted(s.value.func) == "http_date" and s.value.args and astq.is_name(s.value.args[0], "expires") and (("isinstance(expires, str)", False) in guard_set(dcfg, dcfg.node_of(s))) for s in ast.walk(fn))
-    ctx.ob("R13.5", "non-str expires formatted by http_date", ex_ok, "expires = http_date(expires) unless already a str", dump, fn, "expires")
+    # emission table: None / False omitted, True bare, anything else name=value
+    table: list[tuple[str, dict[str, t.Any], str]] = [
+        ("None", dict(secure=None, httponly=None, partitioned=None), ""),
+        ("False", dict(), ""),
+        ("True", dict(secure=True, httponly=True, partitioned=True), "; Secure; HttpOnly; Partitioned"),
+        ("0", dict(max_age=0), "; Max-Age=0"),
+        ("1", dict(max_age=1), "; Max-Age=1"),
+    ]
+    facts = []
+    table_ok = form_ok
+    for label, over, tail in table:
+        hs = W.headers(W.run(matched=True, **over))
+        got = sorted({h.skeleton[len(f"{HOLE}={HOLE}"):] if h.skeleton.startswith(f"{HOLE}={HOLE}") else h.skeleton for h in hs})
+        facts.append(f"{label}: {got}")
+        table_ok = table_ok and got == [tail]
+    facts.append(f"other: {[[it.replace(HOLE, '{}') for it in _attrs_of(h)[1]] for h in full]}")
+    ctx.ob("R13.5", "loop body emits bare name / name=value", table_ok, "; ".join(facts), dump, dump.node, "attribute loop body")
+
+    # SameSite: title-cased, validated
+    ss_ok = True
+    ss_facts = []
+    for s_in in ["strict", "Strict", "STRICT", "lax", "LAX", "none", "None", "NONE", "", "foo", "lax ", "Lax; Secure", "strict,", "no ne"]:
+        outs = W.run(matched=True, samesite=s_in)
+        valid = s_in.title() in ("Strict", "Lax", "None")
+        for o in outs:
+            if valid:
+                h = header_of(o.value) if o.kind == "return" else None
+                good = h is not None and h.skeleton == f"{HOLE}={HOLE}; SameSite={s_in.title()}"
+                got = show_header(h) if h is not None else f"raises {o.exc}"
+            else:
+                good = o.kind == "raise" and o.exc == "ValueError"
+                got = f"raises {o.exc}" if o.kind == "raise" else show(o.value)
+            if not good:
+                ss_ok = False
+                ss_facts.append(f"samesite={s_in!r}: {got}")
+    ctx.ob("R13.5", "SameSite normalised and validated before use", ss_ok, "; ".join(ss_facts) or "Strict/Lax/None in any case emitted title-cased; every other string raises ValueError", dump, dump.node, "samesite check")
+
+    # path, domain, max_age, expires, partitioned
+    def hole_for(name: str, outs: list[Header]) -> list[t.Any]:
+        res = []
+        for h in outs:
+            _p, items = _attrs_of(h)
+            k = 2
+            found = None
+            for it in items:
+                if HOLE in it:
+                    if it.split("=", 1)[0] == name:
+                        found = h.holes[k] if k < len(h.holes) else None
+                    k += it.count(HOLE)
+            res.append(unfmt(found))
+        return res
+
+    def emitted(name: str, **over: t.Any) -> tuple[list[t.Any], str]:
+        """what follows `name=` in the header when only that attribute is given (one entry per returning path)"""
+        outs = W.run(matched=True, **over)
+        hs = W.headers(outs)
+        if not hs:
+            return [None], f"dump_cookie does not return: {sorted({'raises ' + str(o.exc) for o in outs})}; "
+        return hole_for(name, hs), ""
+
+    P = param("path", "str")
+    p_ok, p_fact = True, ""
+    xs, why = emitted("Path", path=P)
+    for x in xs:
+        good = isinstance(x, Sym) and x.op == "call" and isinstance(x.args[0], Ref) and x.args[0].fq in ("urllib.parse.quote",) and x.args[1][:1] == (P,)
+        if good:
+            a, kw = H.call_args(x)
+            safe = a[1] if len(a) > 1 else kw.get("safe", "/")
+            if not isinstance(safe, str):
+                raise AnalysisError("dump_cookie: the safe set of the path quoting is not a constant")
+            bad = sorted(set(safe) & set('; "\\\t\r\n'))
+            nonascii = [c for c in safe if not (0x21 <= ord(c) <= 0x7E)]
+            good = not bad and not nonascii and not (set(kw) - {"safe"})
+            p_fact = f"safe={safe!r} bad={bad + nonascii}"
+        else:
+            p_fact = f"{why}Path emitted as `{show(x)[:100]}`"
+        p_ok = p_ok and good
+    ctx.ob("R13.5", "path safe set excludes ';' and separators", p_ok, p_fact, dump, dump.node, "path quote")
+    D = param("domain", "str")
+    d_ok, d_fact = True, ""
+    xs, why = emitted("Domain", domain=D)
+    for x in xs:
+        root, ch = H.chain(x)
+        names_ = [c[0] for c in ch]
+        good = root == D and len(ch) >= 2 and names_[-2:] == ["encode", "decode"] and ch[-2][1][:1] == ("idna",) and ch[-1][1][:1] == ("ascii",)
+        d_fact = f"{why}Domain emitted as `{show(x)[:140]}`"
+        d_ok = d_ok and good
+    ctx.ob("R13.5", "domain IDNA-encoded to ASCII", d_ok, d_fact, dump, dump.node, "domain idna")
+    MA = param("max_age", "timedelta")
+    ma_ok, ma_fact = True, ""
+    xs, why = emitted("Max-Age", max_age=MA)
+    for x in xs:
+        good = isinstance(x, Sym) and x.op == "call" and x.args[0] == H.Builtin("int") and len(x.args[1]) == 1 and isinstance(x.args[1][0], Sym) and x.args[1][0].op == "method" and x.args[1][0].args[:2] == (MA, "total_seconds")
+        ma_fact = f"{why}Max-Age of a timedelta emitted as `{show(x)[:100]}`"
+        ma_ok = ma_ok and good
+    ctx.ob("R13.5", "timedelta max_age -> int seconds", ma_ok, ma_fact, dump, dump.node, "max_age")
+    ps_outs = W.run(matched=True, partitioned=True, secure=False)
+    ps = W.headers(ps_outs)
+    ps_ok = bool(ps) and all(h.skeleton == f"{HOLE}={HOLE}; Secure; Partitioned" for h in ps)
+    ctx.ob("R13.5", "partitioned implies secure", ps_ok, f"partitioned=True, secure=False: {[show_header(h) for h in ps] or sorted({'raises ' + str(o.exc) for o in ps_outs})}", dump, dump.node, "partitioned secure")
+    E = param("expires", "datetime")
+    ex_ok, ex_fact = True, ""
+    xs, why = emitted("Expires", expires=E)
+    for x in xs:
+        good = isinstance(x, Sym) and x.op == "call" and isinstance(x.args[0], Ref) and x.args[0].fq == "werkzeug.http.http_date" and x.args[1] == (E,)
+        ex_fact = f"{why}Expires of a datetime emitted as `{show(x)[:100]}`"
+        ex_ok = ex_ok and good
+    ctx.ob("R13.5", "non-str expires formatted by http_date", ex_ok, ex_fact, dump, dump.node, "expires")
 
     # ---- R13.6 -----------------------------------------------------
+    _delegation_rules(ctx, folder)
+    _client_rules(ctx, folder, 0x3B in ESC)
+
+
+def show_header(h: Header | None) -> str:
+    if h is None:
+        return "?"
+    it = iter(h.holes)
+    return "".join("{" + show(next(it)) + "}" if c == HOLE else c for c in h.skeleton)
+
+
+# ---------------------------------------------------------------------
+# the sans-io parser
+
+
+class Reader:
+    # (raw value as captured by the pair regex; None = the value group did not take part)
+    VALUES: list[str | None] = [None, "", "x", " x ", '"', '""', '"a"', ' "a" ', '"a', 'a"', '"a"b', 'a"b"', '"\\073"', '"\\""', '"é"', "a b", '"a b"', "'a'", '" "']
+
+    def __init__(self, ctx: Ctx, folder: Folder):
+        self.ctx = ctx
+        self.folder = folder
+        self.fi = ctx.repo.func("sansio.http.parse_cookie")
+        ctx.saw(self.fi)
+        for p in ("cookie", "cls"):
+            if p not in self.fi.params:
+                raise AnalysisError(f"sansio.http.parse_cookie has no parameter {p}")
+        self.unsl: RegexConst = None  # type: ignore[assignment]
+        self.unsl_repl: t.Any = None
+        self.rows: list[tuple[str | None, str, Outcome]] = []
+        self.pair_re: RegexConst | None = None
+        self.sequence: tuple[bool, str] = (True, "")
+
+    def _stored(self, key: str, raw: str | None) -> list[Outcome]:
+        return self._stored_many([(key, raw)])
+
+    def _stored_many(self, captured: list[tuple[str, str | None]]) -> list[Outcome]:
+        """the parser evaluated on a header in which the pair regex captures exactly these (key, value) groups"""
+        me = self
+
+        def hook(s: Sym) -> list | None:
+            if s.op == "method" and isinstance(s.args[0], RegexConst) and s.args[1] in ("findall", "finditer"):
+                rx = s.args[0]
+                if group_count(rx) != 2:
+                    raise AnalysisError("sansio.http.parse_cookie: the pair regex does not have two groups")
+                me.pair_re = rx
+                if s.args[1] == "findall":
+                    return [(key, raw if raw is not None else "") for key, raw in captured]
+                names = dict(re.compile(rx.pattern, rx.flags).groupindex)
+                return [H.FakeMatch((key, raw), None, names) for key, raw in captured]
+            return None
+
+        def oracle(s: Sym) -> bool | None:
+            return True if s.op == "param" else None
+
+        return explore(self.ctx.repo, self.folder, self.fi, lambda: dict(cookie=param("cookie", "str"), cls=Ref("<cls>")), oracle, hook, self.ctx.saw, atoms=ATOMS)
+
+    @staticmethod
+    def _pairs(o: Outcome) -> list | None:
+        """the (key, value) pairs handed to the result class: cls(<list>) or cls() followed by .add(key, value)"""
+        v = o.value
+        if isinstance(v, Sym) and v.op == "call" and v.args[0] == Ref("<cls>") and not v.args[2]:
+            if len(v.args[1]) == 1 and isinstance(v.args[1][0], (list, tuple)):
+                return list(v.args[1][0])
+            if not v.args[1]:
+                adds = [e for e in o.effects if e.op == "method" and e.args[0] is v]
+                if all(e.args[1] == "add" and len(e.args[2]) == 2 and not e.args[3] for e in adds):
+                    return [tuple(e.args[2]) for e in adds]
+        return None
+
+    def analyse(self) -> None:
+        subs = []
+        for i, raw in enumerate(self.VALUES):
+            key = f"k{i}"
+            for o in self._stored(key, raw):
+                if o.forks:
+                    # the value is a constant here: a test the interpreter cannot decide would make the table below
+                    # speak about paths that no input takes
+                    raise AnalysisError(f"sansio.http.parse_cookie: cannot evaluate `{show(o.forks[0][0])[:80]}` for the captured value {raw!r}")
+                self.rows.append((raw, key, o))
+                if o.kind == "return":
+                    if self._pairs(o) is None:
+                        raise AnalysisError(f"sansio.http.parse_cookie returns `{show(o.value)[:80]}`, not cls(<list of pairs>)")
+                    for s in H.walk_terms(self._pairs(o)):
+                        rs = H.as_regex_sub(s)
+                        if rs is not None and isinstance(rs[0].pattern, bytes):
+                            subs.append(rs)
+        if self.pair_re is None:
+            raise AnalysisError("sansio.http.parse_cookie: no findall / finditer over a two-group regex (pair splitting slot)")
+        if not subs:
+            # the substitution is applied but its result is not what gets stored: still the unslash slot (the table below reports it)
+            for _raw, _key, o in self.rows:
+                for s in o.effects:
+                    rs = H.as_regex_sub(s)
+                    if rs is not None and isinstance(rs[0].pattern, bytes):
+                        subs.append(rs)
+        if not subs:
+            raise AnalysisError("sansio.http.parse_cookie: no <bytes regex>.sub(...) reaches a stored value (unslash slot)")
+        # a header with all the pairs at once stores what the pairs store one at a time, in order (nothing leaks from one
+        # iteration into the next, nothing but empty keys is skipped)
+        if all(o.kind == "return" for _r, _k, o in self.rows):
+            singles: list = []
+            for _r, _k, o in self.rows:
+                singles.extend(self._pairs(o) or [])
+            many = [(f"k{i}", raw) for i, raw in enumerate(self.VALUES)]
+            many.insert(3, ("", "dropped"))
+            many.insert(9, ("  ", '"dropped"'))
+            bad = []
+            for o in self._stored_many(many):
+                got = self._pairs(o) if o.kind == "return" else None
+                if o.forks or got is None or show(got) != show(singles):
+                    bad.append(f"raises {o.exc}" if o.kind == "raise" else f"stored {show(got)[:200]}")
+            self.sequence = (not bad, "; ".join(bad[:2]) or f"{len(many)} captured pairs, two of them with an empty key: {len(singles)} stored, each as when parsed alone")
+        # the unescape is the innermost substitution (the one applied to the captured text)
+        inner = [rs for rs in subs if not any(H.as_regex_sub(y) is not None for y in H.walk_terms(rs[2]))]
+        if not inner or len({(rs[0].pattern, rs[0].flags) for rs in inner}) != 1:
+            raise AnalysisError("sansio.http.parse_cookie: cannot identify the unslash substitution")
+        self.unsl, self.unsl_repl = inner[0][0], inner[0][1]
+
+    def report(self) -> None:
+        ctx, fi = self.ctx, self.fi
+        quoted_only: list[str] = []
+        between: list[str] = []
+        single: list[str] = []
+        utf8: list[str] = []
+        exact: list[str] = []
+        n_q = 0
+        at: ast.AST | None = None
+        for raw, key, o in self.rows:
+            s = (raw or "").strip()
+            quoted = len(s) >= 2 and s[0] == s[-1] == '"'
+            tag = f"value {raw!r}"
+            if o.kind != "return":
+                exact.append(f"{tag}: the parser raises {o.exc}")
+                continue
+            pairs = self._pairs(o) or []
+            if len(pairs) != 1 or not isinstance(pairs[0], tuple) or len(pairs[0]) != 2 or pairs[0][0] != key:
+                exact.append(f"{tag}: stored pairs {show(pairs)[:80]}")
+                continue
+            sv = pairs[0][1]
+            inner_subs = [x for x in H.walk_terms(sv) if H.as_regex_sub(x) is not None]
+            if not quoted:
+                if inner_subs:
+                    quoted_only.append(f"{tag} is unescaped although it is not quoted")
+                elif sv != s or H.has_opaque(sv):
+                    exact.append(f"{tag}: stored as {show(sv)[:60]}, expected {s!r}")
+                continue
+            n_q += 1
+            if not inner_subs:
+                quoted_only.append(f"{tag} is quoted but stored as {show(sv)[:60]}")
+                continue
+            if len(inner_subs) != 1:
+                single.append(f"{tag}: {len(inner_subs)} substitutions: {show(sv)[:120]}")
+            # innermost substitution = the unescape
+            st = [x for x in inner_subs if not any(H.as_regex_sub(y) is not None for y in H.walk_terms(H.as_regex_sub(x)[2]))][0]  # type: ignore[index]
+            at = at or _inside(st.node, fi)
+            rx, _repl, subj, extra = H.as_regex_sub(st)  # type: ignore[misc]
+            if (rx.pattern, rx.flags) != (self.unsl.pattern, self.unsl.flags) or extra:
+                single.append(f"{tag}: substitution {show(st)[:100]}")
+            want = s[1:-1].encode("utf-8")
+            if subj != want or H.has_opaque(subj):
+                between.append(f"{tag}: substitution runs over {show(subj)[:60]}, expected {want!r}")
+            # decode(sub) is what must be stored
+            dec = [x for x in H.walk_terms(sv) if x.op == "method" and x.args[1] == "decode" and x.args[0] == (inner_subs[0] if len(inner_subs) == 1 else st)]
+            good_dec = False
+            for d in dec:
+                a, kw = H.call_args(d)
+                codec = a[0] if a else kw.get("encoding", "utf-8")
+                good_dec = good_dec or codec in ("utf-8", "utf8")
+            if not good_dec:
+                utf8.append(f"{tag}: stored {show(sv)[:100]}")
+            if not (dec and sv == dec[0]) and len(inner_subs) == 1:
+                exact.append(f"{tag}: stored {show(sv)[:120]} is not the decoded substitution itself")
+        if n_q < 6:
+            raise AnalysisError("sansio.http.parse_cookie: quoted representatives were not evaluated")
+        unsl_name = H.const_name(fi.module, self.folder, self.unsl)
+        ctx.ob("R13.2", "the parser unescapes exactly the text between the surrounding quotes", not between, "; ".join(between) or f"{unsl_name}.sub runs over value[1:-1] encoded as UTF-8 for every quoted representative", fi, at, "unslash argument")
+        ctx.ob("R13.2", "the parser unescapes in a single pass", not single, "; ".join(single) or "one regex substitution between the captured text and the stored value", fi, at, "single unescape pass")
+        ctx.ob("R13.2", "parser decodes unescaped bytes as UTF-8", not utf8, "; ".join(utf8) or "unslash result .decode() with default/utf-8 codec", fi, at, "parser decode")
+        ctx.ob("R13.2", "the parser unescapes quoted values only (length >= 2, first and last character a double quote)", not quoted_only, "; ".join(quoted_only) or f"representatives {[v for v in self.VALUES]}: unescaped iff quoted", fi, at, "unescape quoted only")
+        ctx.ob("R13.2", "every pair with a non-empty key is stored, in order, independently of the other pairs", self.sequence[0], self.sequence[1], fi, fi.node, "pairs stored in order")
+        ctx.ob("R13.2", "parsed value is stored exactly as unescaped", not exact, "; ".join(exact) or "quoted: the decoded substitution is stored as is; unquoted: the stripped text is stored", fi, at, "value stored as unescaped")
+
+
+# ---------------------------------------------------------------------
+# R13.6
+
+
+def _returns_call_to(outs: list[Outcome], fqs: tuple[str, ...]) -> tuple[bool, str]:
+    rets = [o for o in outs if o.kind == "return"]
+    bad = [show(o.value)[:80] for o in rets if not any(H.is_call_to(o.value, fq) for fq in fqs)]
+    return bool(rets) and not bad, (f"{len(rets)} returning path(s)" + (f"; not a parser call: {bad}" if bad else ""))
+
+
+def _delegation_rules(ctx: Ctx, folder: Folder) -> None:
+    repo = ctx.repo
+
+    def oracle(s: Sym) -> bool | None:
+        return None
+
     hp = repo.func("http.parse_cookie")
     ctx.saw(hp)
-    li = hp.module.local_imports(hp.node)
-    reach = False
-    for r in astq.returns_of(hp.node):
-        if isinstance(r.value, ast.Call):
-            d = dotted(r.value.func)
-            if d and repo.resolve(hp.module, d, li) == "werkzeug.sansio.http.parse_cookie":
-                reach = True
-    rets = astq.returns_of(hp.node)
-    ctx.ob("R13.6", "http.parse_cookie delegates to the sans-io parser", reach and len(rets) == 1, f"{len(rets)} return(s)", hp, hp.node, "delegation")
+    first = hp.params[0] if hp.params else None
+    if first is None:
+        raise AnalysisError("http.parse_cookie has no parameter")
+    outs: list[Outcome] = []
+    for typ in ("str", "dict"):
+        args = {first: param(first, typ)}
+        if "cls" in hp.params:
+            args["cls"] = Ref("<cls>")
+        outs += explore(repo, folder, hp, lambda a=args: dict(a), oracle, None, ctx.saw, atoms=ATOMS)
+    ok, fact = _returns_call_to(outs, ("werkzeug.sansio.http.parse_cookie",))
+    ctx.ob("R13.6", "http.parse_cookie delegates to the sans-io parser", ok, fact, hp, hp.node, "delegation")
+
     rq = repo.func("sansio.request.Request.cookies")
     ctx.saw(rq)
-    ok = False
-    for r in astq.returns_of(rq.node):
-        if isinstance(r.value, ast.Call):
-            d = dotted(r.value.func)
-            if d and repo.resolve(rq.module, d) in ("werkzeug.http.parse_cookie", "werkzeug.sansio.http.parse_cookie"):
-                ok = True
-    ctx.ob("R13.6", "Request.cookies parses with parse_cookie", ok, "return parse_cookie(...)", rq, rq.node, "request cookies")
+    outs = explore(repo, folder, rq, lambda: dict(self=param("self")), oracle, None, ctx.saw, atoms=ATOMS)
+    ok, fact = _returns_call_to(outs, ("werkzeug.http.parse_cookie", "werkzeug.sansio.http.parse_cookie"))
+    ctx.ob("R13.6", "Request.cookies parses with parse_cookie", ok, fact, rq, rq.node, "request cookies")
+
     sc = repo.func("sansio.response.Response.set_cookie")
     ctx.saw(sc)
-    dcalls = astq.name_calls(sc.node, "dump_cookie")
-    fwd_ok = False
-    fact = "no dump_cookie call"
-    if len(dcalls) == 1:
-        c = dcalls[0]
-        want = ["value", "max_age", "expires", "path", "domain", "secure", "httponly", "samesite", "partitioned"]
-        missing = [w for w in want if not astq.is_name(astq.kwarg(c, w), w)]
-        fwd_ok = not missing and c.args and astq.is_name(c.args[0], "key")
-        fact = f"missing/incorrect keywords: {missing}"
-        hdr = astq.parent(c)
-        fwd_ok = fwd_ok and isinstance(hdr, ast.Call) and isinstance(hdr.func, ast.Attribute) and hdr.func.attr == "add" and astq.const_str(hdr.args[0]) == "Set-Cookie"
-    ctx.ob("R13.6", "set_cookie forwards every attribute", bool(fwd_ok), fact, sc, sc.node, "set_cookie forwarding")
+    dump = repo.func("http.dump_cookie")
+    want = ["key", "value", "max_age", "expires", "path", "domain", "secure", "httponly", "samesite", "partitioned"]
+    missing_p = [w for w in want if w not in sc.params]
+    if missing_p:
+        ctx.ob("R13.6", "set_cookie forwards every attribute", False, f"set_cookie has no parameter(s) {missing_p}", sc, sc.node, "set_cookie forwarding")
+        return
+    args = {p: param(p) for p in sc.params}
+    outs = explore(repo, folder, sc, lambda: dict(args), oracle, None, ctx.saw, atoms=ATOMS)
+    fwd_ok = bool(outs)
+    fact = ""
+    for o in outs:
+        if o.kind != "return":
+            continue
+        dcalls = [e for e in o.effects if H.is_call_to(e, "werkzeug.http.dump_cookie")]
+        if len(dcalls) != 1:
+            fwd_ok = False
+            fact = f"{len(dcalls)} dump_cookie call(s) on a path"
+            continue
+        a, kw = H.call_args(dcalls[0])
+        bound = H.bind_call(dump, a, kw)
+        wrong = [w for w in want if bound.get(w) != param(w)]
+        added = [e for e in o.effects if e.op == "method" and e.args[1] == "add" and e.args[2][:1] == ("Set-Cookie",) and e.args[2][1:2] == (dcalls[0],) and isinstance(e.args[0], Sym) and e.args[0].op == "attr" and e.args[0].args == (param("self"), "headers")]
+        if wrong or len(added) != 1:
+            fwd_ok = False
+        fact = f"missing/incorrect keywords: {wrong}; self.headers.add('Set-Cookie', <dump_cookie result>): {len(added)}"
+    ctx.ob("R13.6", "set_cookie forwards every attribute", fwd_ok, fact, sc, sc.node, "set_cookie forwarding")
+
+
+def _client_rules(ctx: Ctx, folder: Folder, semicolon_escaped: bool) -> None:
+    repo = ctx.repo
     tc = repo.func("test.Cookie._from_response_header")
     ctx.saw(tc)
-    parts = [c for c in astq.method_calls(tc.node, "partition") + astq.method_calls(tc.node, "split") if c.args and astq.const_str(c.args[0]) == ";" and astq.is_name(c.func.value, "header")]  # type: ignore[attr-defined]
-    first_cut = bool(parts) and all((c.func.attr == "partition") or (len(c.args) == 2 and norm(c.args[1]) == "1") for c in parts)  # type: ignore[attr-defined]
-    # the cookie pair handed to parse_cookie / the key=value split is the part before the first ';' only
-    pc_calls = astq.name_calls(tc.node, "parse_cookie")
-    T = Fn(tc)
-    pair_only = bool(pc_calls) and all(_is_first_piece(T.expand(c.args[0], c)) or _is_first_piece_name(T, c.args[0], c) for c in pc_calls if c.args)
-    ctx.ob("R13.6", "test client cuts the pair at the first ';' (safe because ';' is escaped) and parses only that pair", first_cut and pair_only and 0x3B in ESC, f"first-';' cut: {first_cut}; parse_cookie gets the pair only: {pair_only}; 0x3b escaped: {0x3B in ESC}", tc, tc.node, "client split")
-    # parameters are taken from the remainder only (the pair itself is never read as an attribute)
-    loops = [n for n in ast.walk(tc.node) if isinstance(n, (ast.For, ast.comprehension))]
-    over = [norm(T.expand(l.iter, l.iter if isinstance(l, ast.comprehension) else l)) for l in loops]
-    rest_only = bool(over) and all(("partition(';')[2]" in o) or o.startswith("header.partition(';')[2]") or ("parameters_str" in o) or (".split(';')[1:]" in o) for o in over)
-    ctx.ob("R13.6", "test client reads attributes from the part after the pair only", rest_only, f"attribute loop(s) over {over}", tc, tc.node, "client attributes source")
+    need = ["server_name", "path", "header"]
+    if any(p not in tc.params for p in need):
+        raise AnalysisError(f"test.Cookie._from_response_header: expected parameters {need}")
+    self_name = tc.params[0]
+    CLS = Ref("<Cookie>")
 
+    def run(header: str) -> list[Outcome]:
+        def oracle(s: Sym) -> bool | None:
+            return True if s.op == "param" else None
 
-def _is_first_piece(e: ast.AST) -> bool:
-    t = norm(e)
-    return t in ("header.partition(';')[0]", "header.split(';', 1)[0]", "header.split(';')[0]")
+        return explore(repo, folder, tc, lambda: {self_name: CLS, "server_name": param("server_name", "str"), "path": param("path", "str"), "header": header}, oracle, None, ctx.saw, atoms=ATOMS)
 
+    fields = [st.target.id for st in tc.cls.node.body if isinstance(st, ast.AnnAssign) and isinstance(st.target, ast.Name)] if tc.cls is not None else []
 
-def _is_first_piece_name(T: Fn, e: ast.AST, at: ast.AST) -> bool:
-    """`header, _, rest = header.partition(';')` then parse_cookie(header)"""
-    if not isinstance(e, ast.Name):
-        return False
-    node = T.cfg.node_of(at)
-    defs = T.rd.reaching(node, e.id) if node is not None else set()
-    return bool(defs) and all(d.index == 0 and d.value is not None and norm(d.value) in ("header.partition(';')", "header.split(';', 1)") for d in defs)
+    def built(o: Outcome) -> dict[str, t.Any] | None:
+        """field -> value of the Cookie that is returned (positional arguments follow the dataclass field order)"""
+        v = o.value
+        if o.kind == "return" and isinstance(v, Sym) and v.op == "call" and v.args[0] == CLS and len(v.args[1]) <= len(fields):
+            return {**dict(zip(fields, v.args[1])), **dict(v.args[2])}
+        return None
 
-
-def _reader_rules(ctx: Ctx, sparse: FuncInfo, uf: FuncInfo, unsl_call: ast.Call) -> None:
-    """the unescape is applied to quoted values only, and its result is what gets stored."""
-    P = Fn(sparse)
-    appends = [c for c in astq.method_calls(sparse.node, "append") if c.args and isinstance(c.args[0], ast.Tuple) and len(c.args[0].elts) == 2]
-    if len(appends) != 1:
-        raise AnalysisError("sansio.http.parse_cookie: expected one out.append((key, value))")
-    app = appends[0]
-    vexpr = app.args[0].elts[1]
-    # the statement in parse_cookie that applies the unescape: contains the sub call, or calls the helper that does
-    def applies(st: ast.AST) -> bool:
-        for x in ast.walk(st):
-            if x is unsl_call:
-                return True
-            if isinstance(x, ast.Call) and uf is not sparse and dotted(x.func) == uf.name:
-                return True
-        return False
-
-    apply_stmts = [s for s in walk_no_nested(sparse.node) if isinstance(s, ast.Assign) and applies(s)]
-    if len(apply_stmts) != 1:
-        raise AnalysisError(f"sansio.http.parse_cookie: expected one assignment applying the unescape, found {len(apply_stmts)}")
-    ast_ = apply_stmts[0]
-    an = P.cfg.node_of(ast_)
-    g = guard_set(P.cfg, an)
-    tgt = ast_.targets[0]
-    vname = tgt.id if isinstance(tgt, ast.Name) else None
-    # quoted-only: length >= 2 and both ends are '"'
-    src = None
-    for x in ast.walk(ast_.value):
-        if isinstance(x, ast.Subscript) and norm(x.slice) == "1:-1" and isinstance(x.value, ast.Name):
-            src = x.value.id
-        if isinstance(x, ast.Call) and uf is not sparse and dotted(x.func) == uf.name and x.args and isinstance(x.args[0], ast.Name):
-            src = x.args[0].id
-    for lv in (1, 2, 3):
-        if src is not None:
-            break
-        for x in ast.walk(P.expand(ast_.value, ast_, levels=lv)):
-            if isinstance(x, ast.Subscript) and norm(x.slice) == "1:-1" and isinstance(x.value, ast.Name):
-                src = x.value.id
-    if src is None:
-        raise AnalysisError("sansio.http.parse_cookie: cannot identify the quoted value that is unescaped")
-    keys = {k for k, v in g if v}
-    len_ok = (f"len({src}) < 2", False) in g or (f"1 < len({src})", True) in g
-    first_q = any(("[0]" in k or "startswith('\"')" in k) and src in k and "'\"'" in k for k in keys)
-    last_q = any(("[-1]" in k or "endswith('\"')" in k) and src in k and "'\"'" in k for k in keys)
-    ctx.ob("R13.2", "the parser unescapes quoted values only (length >= 2, first and last character a double quote)", bool(src) and len_ok and first_q and last_q, f"guards of the unescape on `{src}`: {sorted(k for k in keys)}", sparse, ast_, "unescape quoted only")
-    post_ok = isinstance(vexpr, ast.Name)
-    fact = f"stored value expression `{norm(vexpr)}`"
-    if post_ok:
-        defs = P.rd.reaching(P.cfg.node_of(app), vexpr.id)
-        tests_here = [t for t, _ in P.cfg.guards(an) if t.kind == "test"]
-        ref = max(tests_here, key=lambda t_: (t_.lineno, t_.id)) if tests_here else None  # the innermost guard of the unescape
-        for d in defs:
-            if d.stmt is ast_:
+    PARSERS = ("werkzeug.http.parse_cookie", "werkzeug.sansio.http.parse_cookie")
+    cut_facts: list[str] = []
+    for header in ['k="a\\073b"; Domain=example.com; Path=/p; Max-Age=5; Secure', "k=v", 'k="x=y"; Path=/']:
+        pair = header.partition(";")[0]
+        for o in run(header):
+            kw = built(o)
+            if kw is None:
+                if o.kind == "return":
+                    raise AnalysisError(f"test.Cookie._from_response_header returns `{show(o.value)[:80]}`, not cls(<keywords>)")
+                cut_facts.append(f"{header!r}: raises {o.exc}")
                 continue
-            before = ref is not None and d in P.rd.reaching(ref, vexpr.id)
-            if not before:
-                post_ok = False
-                fact = f"`{vexpr.id}` is rebound after unescaping: {norm(d.stmt) if d.stmt is not None else d.kind}"
-        if vname != vexpr.id:
-            post_ok = False
-            fact = f"the unescaped text is bound to `{vname}` but `{vexpr.id}` is stored"
-    ctx.ob("R13.2", "parsed value is stored exactly as unescaped", post_ok, fact, sparse, app, "value stored as unescaped")
+            pcs = [e for e in o.effects if any(H.is_call_to(e, fq) for fq in PARSERS)]
+            arg = None
+            if len(pcs) == 1:
+                a, k2 = H.call_args(pcs[0])
+                arg = a[0] if a else (k2.get("header") if "header" in k2 else k2.get("cookie"))
+            if not (isinstance(arg, str) and arg.strip() == pair.strip()):
+                cut_facts.append(f"{header!r}: parse_cookie gets {show(arg)[:60]}, the pair is {pair!r}")
+            if "key" not in kw or "value" not in kw:
+                raise AnalysisError("test.Cookie._from_response_header: cls(...) without key= / value=")
+            if kw["key"] != pair.partition("=")[0].strip() or kw["value"] != pair.partition("=")[2].strip():
+                cut_facts.append(f"{header!r}: key/value {show(kw['key'])}/{show(kw['value'])}")
+            dv = kw.get("decoded_value")
+            if not (isinstance(dv, Sym) and pcs and any(x == pcs[0] for x in H.walk_terms(dv))):
+                cut_facts.append(f"{header!r}: decoded_value {show(dv)[:60]} does not come from parse_cookie")
+    ctx.ob("R13.6", "test client cuts the pair at the first ';' (safe because ';' is escaped) and parses only that pair", not cut_facts and semicolon_escaped, "; ".join(cut_facts) or f"parse_cookie gets exactly the text before the first ';'; 0x3b escaped: {semicolon_escaped}", tc, tc.node, "client split")
 
-
-def _outer_chain(call: ast.Call) -> ast.AST:
-    cur: ast.AST = call
-    while True:
-        p = astq.parent(cur)
-        if isinstance(p, ast.Attribute) and isinstance(astq.parent(p), ast.Call) and astq.parent(p).func is p:  # type: ignore[union-attr]
-            cur = astq.parent(p)  # type: ignore[assignment]
-        else:
-            return cur
-
-
-def _decode_is_utf8(c: ast.Call) -> bool:
-    if not c.args:
-        enc = astq.kwarg(c, "encoding")
-        return enc is None or astq.const_str(enc) in ("utf-8", "utf8")
-    return astq.const_str(c.args[0]) in ("utf-8", "utf8")
-
-
-def _unslash_shape(rf: FuncInfo) -> tuple[bool, str]:
-    """v = m.group(1); a single character is returned as is; otherwise int(v, 8) becomes one byte."""
-    fn = rf.node
-    R = Fn(rf)
-    g1 = [c for c in astq.calls(fn) if isinstance(c.func, ast.Attribute) and c.func.attr == "group" and c.args and isinstance(c.args[0], ast.Constant) and c.args[0].value == 1]
-    vnames = {s.targets[0].id for s in walk_no_nested(fn) if isinstance(s, ast.Assign) and isinstance(s.targets[0], ast.Name) and any(c is s.value for c in g1)}
-    octal_ok = False
-    lit_ok = False
-    for c in astq.calls(fn):
-        if dotted(c.func) == "int" and len(c.args) == 2 and isinstance(c.args[1], ast.Constant) and c.args[1].value == 8 and isinstance(c.args[0], ast.Name) and c.args[0].id in vnames:
-            v = c.args[0].id
-            p = astq.parent(c)
-            pp = astq.parent(p) if p is not None else None
-            one_byte = (isinstance(p, ast.Attribute) and p.attr == "to_bytes" and isinstance(pp, ast.Call) and pp.args and isinstance(pp.args[0], ast.Constant) and pp.args[0].value == 1) or (isinstance(p, (ast.List, ast.Tuple)) and len(p.elts) == 1 and isinstance(pp, ast.Call) and dotted(pp.func) == "bytes")
-            g = guard_set(R.cfg, R.cfg.node_of(c))
-            multi = (f"1 == len({v})", False) in g or (f"len({v}) == 1", False) in g or (f"1 < len({v})", True) in g
-            octal_ok = bool(one_byte and multi)
-            # the single character is returned unchanged on the other edge
-            for r in astq.returns_of(fn):
-                if astq.is_name(r.value, v):
-                    gr = guard_set(R.cfg, R.cfg.node_of(r))
-                    lit_ok = lit_ok or (f"1 == len({v})", True) in gr or (f"len({v}) == 1", True) in gr or not any(k.startswith(("1 == len", "len(")) for k, _ in gr) and multi
-    ok = bool(g1) and octal_ok and lit_ok
-    return ok, f"group(1) read: {bool(g1)}; three digits -> int(v, 8) as one byte, only when len(v) != 1: {octal_ok}; a single character returned as is: {lit_ok}"
-
-
-def _attr_loop_body_ok(dump: FuncInfo, loop: ast.For) -> tuple[bool, str]:
-    """None / False are skipped, True emits the bare name, anything else emits name=value (decision table over the loop body)."""
-    k, v = [e.id for e in loop.target.elts]  # type: ignore[attr-defined]
-    cfg = cfg_of(dump)
-    heads = cfg.by_ast.get(id(loop))
-    if not heads:
-        return False, "loop not in CFG"
-    head = heads[0]
-    body_ids = {id(x) for s in loop.body for x in ast.walk(s)}
-    KN, KF, KT = canon(ast.parse(f"{v} is None", mode="eval").body)[0], canon(ast.parse(f"{v} is False", mode="eval").body)[0], canon(ast.parse(f"{v} is True", mode="eval").body)[0]
-    rows = {"None": {KN: True, KF: False, KT: False}, "False": {KN: False, KF: True, KT: False}, "True": {KN: False, KF: False, KT: True}, "other": {KN: False, KF: False, KT: False}}
-    want = {"None": [], "False": [], "True": [f"buf.append({k})"], "other": [f"buf.append(f'{{{k}}}={{{v}}}')"]}
-    facts = []
-    ok = True
-    for name, val in rows.items():
-        start = cfg.succ(head, "T")
-        if not start:
-            return False, "no loop body"
-        # walk one iteration
-        acts: list[str] = []
-        n = start[0]
-        seen = set()
-        unknown = False
-        while n is not head and n.id not in seen and n.ast is not None and id(n.ast) in body_ids:
-            seen.add(n.id)
-            if n.kind == "test":
-                kk, pp = canon(n.ast)
-                if kk not in val:
-                    unknown = True
-                    break
-                nxt = cfg.succ(n, "T" if val[kk] == pp else "F")
+    # the cookie's own name never acts as an attribute
+    def attrs_of(header: str) -> list[str]:
+        res = []
+        for o in run(header):
+            kw = built(o)
+            if kw is None:
+                res.append(f"raises {o.exc}" if o.kind == "raise" else show(o.value)[:60])
             else:
-                if isinstance(n.ast, ast.Expr) and isinstance(n.ast.value, ast.Call) and norm(n.ast.value.func) == "buf.append":
-                    acts.append(norm(n.ast.value))
-                nxt = [s for s, l in n.succs if l != "exc"]
-            if not nxt:
-                break
-            n = nxt[0]
-        if unknown or acts != want[name]:
-            ok = False
-        facts.append(f"{name}: {acts}")
-    return ok, "; ".join(facts)
+                res.append(show({k: v for k, v in sorted(kw.items()) if k not in ("key", "value", "decoded_key", "decoded_value")}))
+        return sorted(res)
+
+    ph_facts: list[str] = []
+    for rest in ["", "; Secure", "; Path=/p; Max-Age=3"]:
+        base = attrs_of("k=v" + rest)
+        for name in ["domain", "Domain", "path", "max-age", "Max-Age", "expires", "secure", "httponly", "samesite"]:
+            got = attrs_of(f"{name}=v{rest}")
+            if got != base:
+                ph_facts.append(f"header {name + '=v' + rest!r}: attributes {got[0][:160]} differ from those of {'k=v' + rest!r}")
+    ctx.ob("R13.6", "test client reads attributes from the part after the pair only", not ph_facts, "; ".join(ph_facts[:3]) or "a cookie named like an attribute gets the same attributes as any other cookie", tc, tc.node, "client attributes source")
